@@ -5,6 +5,7 @@ import (
 	"crypto/cipher"
 	"encoding/binary"
 	"encoding/hex"
+	"errors"
 	"fmt"
 	"io"
 	"path/filepath"
@@ -292,6 +293,12 @@ func tryGetRedumpKey(fsys afero.Fs, requestedPath string) ([]byte, error) {
 	if err == nil {
 		defer keyFile.Close()
 		return ReadKeyFile(keyFile)
+	}
+
+	// a key file that exists but cannot be opened is an error, not "there is no key":
+	// otherwise the image would be served still encrypted
+	if !errors.Is(err, afero.ErrFileNotFound) {
+		return nil, err
 	}
 
 	// try .dkey in REDKEY directory (instead of PS3ISO)
